@@ -5,7 +5,7 @@ use super::*;
 use crate::meta::verif_header::{any_geo, info_of};
 use crate::verif_spec as spec;
 
-struct KIo;
+pub(crate) struct KIo;
 impl Qcow2IoOps for KIo {
     async fn read_to(&self, _offset: u64, _buf: &mut [u8]) -> Qcow2Result<usize> {
         Ok(0)
